@@ -370,7 +370,7 @@ META = dict(
 )
 
 MANIFEST = dict(
-    text='For C08: the real writer (Atom.get_common_string_rep/get_pqr_string), the real whitespace re-spacer (main.print_pqr) and the real readers (Atom.from_pqr_line, io.read_pqr) plus two independent oracle readers (fixed columns; documented whitespace token order) on layout strings: serial, residue number, coordinates, charge, radius are symbolic numbers over the stated ranges, names/chain/insertion code symbolic characters; every truncation or field merge is an arithmetic fact the solver finds. Nine overflow/merge regions of the pinned tree are known findings (known_findings.json); the check proves there is no violation outside them and re-confirms each by a solver witness replayed on the real code.',
+    text='For C08: the real writer (Atom.get_common_string_rep/get_pqr_string), the real whitespace re-spacer (main.print_pqr) and the real readers (Atom.from_pqr_line, io.read_pqr) plus two independent oracle readers (fixed columns; documented whitespace token order) on layout strings: serial, residue number, coordinates, charge, radius are symbolic numbers over the stated ranges, names/chain/insertion code symbolic characters; every truncation or field merge is an arithmetic fact the solver finds. Nine overflow/merge regions of the pinned tree are known findings (known_findings.json); the check proves there is no violation outside them and re-confirms each by a solver witness replayed on the real code. Round 4: on every path of the real driver (clean, assign-only, force-field run; symbolic options) every call that renders PQR atom lines receives chainflag equal to --keep-chain.',
     note='Trusted: z3, symx layout-string model (number rendering = round-half-even on exact decimals, validated against CPython on each run), AST rewrite of f-strings in the four encoded functions. Fields are symbolic in neighbouring groups, the rest fixed in-range defaults. A defect confined to a known-finding region is masked by it.',
     technique='symbolic execution of real code on layout strings (symx) + SMT verdict per path, known-finding regions handled by the solver',
     design='DESIGN.md section 3 C08',
